@@ -18,8 +18,9 @@ const (
 	CStruct // struct of an analysed package (or unnamed): composite, Ref-addressed in memory
 	CSlice
 	CIface
-	CUPtr  // unsafe.Pointer: (region, offset)
-	CArray // fixed array of scalars: SMT array value
+	CUPtr     // unsafe.Pointer: (region, offset)
+	CArray    // fixed array of scalars: SMT array value
+	CSmallArr // fixed array of at most 8 scalars: one term per element (no array theory)
 	CTuple
 	CFloat // uninterpreted Int
 )
@@ -80,6 +81,12 @@ func classOf(t types.Type) Class {
 	case *types.Interface:
 		return CIface
 	case *types.Array:
+		if u.Len() <= 8 {
+			switch classOf(u.Elem()) {
+			case CBool, CInt, CRef, CFloat:
+				return CSmallArr
+			}
+		}
 		return CArray
 	case *types.Tuple:
 		return CTuple
@@ -147,6 +154,13 @@ func leavesOf(t types.Type) []leaf {
 		return []leaf{{".r", "Int"}, {".o", sortIdx}}
 	case CStruct, CTuple:
 		panic(unsupported("leavesOf struct"))
+	case CSmallArr:
+		a := under(t).(*types.Array)
+		var out []leaf
+		for i := int64(0); i < a.Len(); i++ {
+			out = append(out, leaf{fmt.Sprintf(".%d", i), scalarSort(a.Elem())})
+		}
+		return out
 	}
 	return []leaf{{"", scalarSort(t)}}
 }
@@ -164,14 +178,15 @@ const (
 	VTuple            // F = elements
 	VLoc              // pointer to a non-struct cell, resolved statically
 	VFunc             // function value: Fn (static) or opaque
+	VArr              // small fixed array: F = elements
 )
 
 type Val struct {
-	K    VK
-	T    string
-	Typ  types.Type
-	F    []Val
-	L    *Loc
+	K     VK
+	T     string
+	Typ   types.Type
+	F     []Val
+	L     *Loc
 	Fn    string   // for VFunc: short name of a static function / bound method
 	Recv  *Val     // bound receiver of a closure-made method value
 	C     *big.Int // untyped integer constant (specifications only)
@@ -185,6 +200,10 @@ type Loc struct {
 	typ  types.Type // type of the cell
 	idx  string     // if non-empty: index into the array-valued cell
 	et   types.Type // element type when idx is set
+	// field of an opaque (foreign) struct stored in the cell obase: read as an uninterpreted function
+	obase  *Loc
+	ofield string
+	otyp   types.Type
 }
 
 type unsupportedErr struct{ msg string }
@@ -235,6 +254,13 @@ func (c *Ctx) zeroVal(t types.Type) Val {
 		return Val{K: VIface, Typ: t, F: []Val{sc("0", nil), sc("0", nil)}}
 	case CUPtr:
 		return Val{K: VUPtr, Typ: t, F: []Val{sc("0", nil), sc(bvInt(64, 0), nil)}}
+	case CSmallArr:
+		a := under(t).(*types.Array)
+		v := Val{K: VArr, Typ: t}
+		for i := int64(0); i < a.Len(); i++ {
+			v.F = append(v.F, c.zeroVal(a.Elem()))
+		}
+		return v
 	case CArray:
 		a := under(t).(*types.Array)
 		z := c.zeroVal(a.Elem())
@@ -255,6 +281,13 @@ func (c *Ctx) freshVal(t types.Type, hint string) Val {
 	switch classOf(t) {
 	case CBool, CInt, CRef, CFloat, CArray:
 		return sc(c.declare(hint, scalarSort(t)), t)
+	case CSmallArr:
+		a := under(t).(*types.Array)
+		v := Val{K: VArr, Typ: t}
+		for i := int64(0); i < a.Len(); i++ {
+			v.F = append(v.F, c.freshVal(a.Elem(), fmt.Sprintf("%s.%d", hint, i)))
+		}
+		return v
 	case CStruct:
 		st := under(t).(*types.Struct)
 		v := Val{K: VStruct, Typ: t}
@@ -478,4 +511,45 @@ func convInt(term string, from, to types.Type) string {
 		return fmt.Sprintf("((_ sign_extend %d) %s)", tw-fw, term)
 	}
 	return fmt.Sprintf("((_ zero_extend %d) %s)", tw-fw, term)
+}
+
+// litIndex parses a 64-bit literal index.
+func litIndex(t string) (int64, bool) {
+	if strings.HasPrefix(t, "#x") && len(t) == 18 {
+		v, ok := new(big.Int).SetString(t[2:], 16)
+		if ok && v.IsInt64() {
+			return v.Int64(), true
+		}
+	}
+	return 0, false
+}
+
+// arrSelect reads element idx of a small array value.
+func arrSelect(a Val, idx string) Val {
+	if k, ok := litIndex(idx); ok && k >= 0 && int(k) < len(a.F) {
+		return a.F[k]
+	}
+	r := a.F[len(a.F)-1]
+	for k := len(a.F) - 2; k >= 0; k-- {
+		r = sc("(ite (= "+idx+" "+bvInt(64, int64(k))+") "+a.F[k].T+" "+r.T+")", a.F[k].Typ)
+	}
+	return r
+}
+
+// arrStore returns the small array with element idx replaced.
+func arrStore(a Val, idx string, v Val) Val {
+	out := a
+	out.F = make([]Val, len(a.F))
+	k0, lit := litIndex(idx)
+	for k := range a.F {
+		switch {
+		case lit && int64(k) == k0:
+			out.F[k] = sc(v.T, a.F[k].Typ)
+		case lit:
+			out.F[k] = a.F[k]
+		default:
+			out.F[k] = sc("(ite (= "+idx+" "+bvInt(64, int64(k))+") "+v.T+" "+a.F[k].T+")", a.F[k].Typ)
+		}
+	}
+	return out
 }
